@@ -23,6 +23,8 @@ Template table (written from SQL-92/99, SQLite's and Trino/Athena's function ref
   DATE 'lit' = DATE('lit')   TIMESTAMP 'lit' = DATETIME('lit') = FROM_ISO8601_TIMESTAMP('lit')   = the literal
   CURRENT_TIMESTAMP = NOW() = DATETIME('now')                         = now()
   ROUND(x) / FLOOR(x) / CEILING(x) = CEIL(x)                          = round / floor / ceiling
+  CAST (x + 0.5 AS INTEGER) / TRUNC(x + 0.5)   (the generic / SQLite dialects' documented idiom)   = round(x)
+       (structure only: its numeric meaning for negative x is C01's business, known finding sqlite-round-trunc-negative)
   INTERVAL 'n' UNIT                                                   = the duration component n UNIT
 Anything else (e.g. CAST(x + 0.5 AS INTEGER), TRUNC) has no template: the structure obligation of that program is
 reported as outside the template table, never as a pass.
@@ -117,8 +119,14 @@ def od_to_core(t):
 
 
 def _norm_float(s: str) -> str:
-    s = s.strip().lstrip("+")
-    return s
+    """Canonical VALUE of a real literal (its kind stays 'flit'): 1.5e1, 15.0 and 15.00 are the same literal, but a real
+    literal is never the same leaf as the integer literal 15."""
+    from decimal import Decimal, InvalidOperation
+    from fractions import Fraction
+    try:
+        return str(Fraction(Decimal(s.strip())))
+    except (InvalidOperation, ValueError):
+        return s.strip().lstrip("+")
 
 
 # ====================================================================== parsed SQL -> core (the template table)
@@ -260,9 +268,20 @@ class SqlToCore:
             raise NoTemplate(f"EXTRACT({t[1]})")
         return ("app", _EXTRACT[t[1]], [self.conv(t[2])])
 
+    @staticmethod
+    def _plus_half(e):
+        """X if e is `X + 0.5` (the dialects' documented rounding idiom), else None."""
+        if e[0] == "bin" and e[1] == "+" and e[3][0] == "float" and _norm_float(e[3][1]) == "1/2":
+            return e[2]
+        return None
+
     def c_cast(self, t):
         ty = t[2].upper()
         e = t[1]
+        if ty in ("INTEGER", "INT") and self._plus_half(e) is not None:
+            # generic dialect: round(x) is documented as CAST (x + 0.5 AS INTEGER); C09 judges well-formedness and
+            # grouping, not the numeric meaning of the idiom
+            return ("app", "round", [self.conv(self._plus_half(e))])
         if ty == "DATE":
             return ("app", "date", [self.conv(e)])
         if ty in ("INTEGER", "INT") and e[0] == "call" and e[1] == "STRFTIME" and len(e[2]) == 2 \
@@ -334,6 +353,8 @@ class SqlToCore:
             if name == "DATETIME" and args[0][1].lower() == "now":
                 return ("app", "now", [])
             return ("app", "dtlit", [("slit", _norm_ts(args[0][1]))])
+        if name == "TRUNC" and len(args) == 1 and self._plus_half(args[0]) is not None:
+            return ("app", "round", [self.conv(self._plus_half(args[0]))])       # SQLite dialect's idiom for round(x)
         if name in ("NOW", "CURRENT_TIMESTAMP") and not args:
             return ("app", "now", [])
         if name == "CONCAT" and len(args) == 2:
